@@ -19,7 +19,7 @@ from .c10 import linear_matrix
 
 ID = 'C04'
 LEVEL = 'other'
-TECHNIQUE = 'jaxpr-level symbolic execution (fori_loop unrolled) of mv, op.as_matrix() and AbstractLinearOperator.as_matrix(op) + z3; dense form compared with the coefficient matrix extracted from mv'
+TECHNIQUE = 'jaxpr-level symbolic execution (fori_loop unrolled) of mv, op.as_matrix() and AbstractLinearOperator.as_matrix(op) + z3; dense form compared with the coefficient matrix extracted from mv (complex-valued family: op(x) = as_matrix() @ x exactly in Q(i))'
 EXPLANATION = ('For each operator (all float parameters symbolic) z3 decides (i) op(a x + b y) = a op(x) + b op(y) with symbolic scalars a, b '
                'and (ii) that the traced matrix of both the generic as_matrix (column loop unrolled) and the class\'s own override equals, '
                'entry by entry, the coefficient of x_j in the i-th output of the traced mv (pytree leaves in order, row-major) - i.e. '
@@ -28,7 +28,7 @@ FUNCTIONS = ['AbstractLinearOperator.as_matrix', 'AdditionOperator.as_matrix', '
              'BlockRow/BlockDiagonal/BlockColumnOperator.as_matrix', 'AbstractRavelOrReshapeOperator.as_matrix', 'SymmetricBandToeplitzOperator.as_matrix', 'every mv']
 BOUNDS = {'quick': 'every catalogue leaf of 4 families (in_size <= 12) + leaf.T + closed-form leaf.I + seeded 120 composites (products, sums, blocks)',
           'thorough': 'same + up to 4 000 composites per family (all with in_size <= 14)'}
-BOUNDS['quick'] += '; complex-valued family: 12 leaves with symbolic real and imaginary parts (dense, diagonal, broadcast diagonal, scalar, index, reshape, move-axis, pytree), their lazy/own transposes, 14 composites and their transposes, complex scalars a, b'
+BOUNDS['quick'] += '; complex-valued family: 12 leaves with symbolic real and imaginary parts (dense, diagonal, broadcast diagonal, scalar, index, reshape, move-axis, pytree), their lazy/own transposes, 14 composites and their transposes, complex scalars a, b; 9 operators with complex parameters on a REAL input structure (output dtype wider than the input dtype)'
 BOUNDS['thorough'] += '; complex-valued family: all products and sums of 7 leaves and their transposes'
 STUBS = ['as_matrix() of the lazy inverse (jnp.linalg.inv -> LU primitives) is not encodable: not claimed']
 ASSUMPTIONS = ['exact real arithmetic (complex-valued family: exact arithmetic in Q(i))', 'inverted scalars != 0']
@@ -48,9 +48,21 @@ def cases(tier, seed):
         rnd.shuffle(comp)
         progs += ([e for e in c01.gen_programs(fam, 'thorough', seed) if not _has_lazy(fam, e)][:4000] if tier == 'thorough' else comp[:30])
         out += [(fam, e) for e in progs]
+    from ..catalogue import other_stokes_programs
+    out += [(fam, e) for fam in ('iquv', 'qu') for e in other_stokes_programs(fam) if not _has_lazy_other(e)]
     from .. import cplx
     out += [('cplx', e) for e in cplx.expressions(tier)]
+    out += [('cplx', e) for e in cplx.real_input_expressions()]
     return out
+
+
+def _has_lazy_other(e):
+    """IQUV / QU families: only the rotations have a closed-form inverse."""
+    if not isinstance(e, tuple):
+        return False
+    if e[0] == 'I' and not (e[1][0] == 'leaf' and e[1][1] in ('R', 'R2', 'Rs')):
+        return True
+    return any(_has_lazy_other(c) for c in e[1:] if isinstance(c, tuple))
 
 
 def _has_lazy(fam, e):
